@@ -12,6 +12,9 @@ RULE = (
     "oracle: equal effect traces and termination class.  A case is non-trivial when its exploration produced >= 2 "
     "distinct effect traces (the environment mattered)."
 )
+RULE += (
+    ' Also CALLARG (14 expressions whose call arguments are calls, in main code and inside a function), DEADLIB (dropped code that mentions a library function: 6 guards x 5 statements x 3 program shapes) and LIST contexts that bind the looked-up value to a name read twice.'
+)
 ASSUME = [
     "reference IC10 machine M (vp/ic10.py) models the game's chip for the opcodes used",
     "reference executor R (vp/ref.py): CPython control flow + IC10 arithmetic in Num",
@@ -31,6 +34,9 @@ def build_cases(tier):
     cases += F.dev(tier)
     cases += F.lists(tier, lens=range(2, 6))
     cases += F.dead(tier)
+    for c in F.deadlib(tier):
+        cases.append(dict(c, variants=[{}] if c["family"] != "DEADLIB" else [{}, {"inline_functions": False}]))
+    cases += F.callarg(tier)
     cases += F.constprop(tier)
     cases += F.intrinsic(tier)
     cases += F.latestore(tier)
@@ -50,7 +56,7 @@ def build_cases(tier):
     for c in F.lists(tier, lens=range(6, 10)):
         c["family"] = "W-LIST6+"
         cases.append(c)
-    cases += F.w_alias() + F.w_forctl() + F.w_loopvar() + F.w_stack0() + F.w_forlist_nested() + F.w_alias_lifetime() + F.w_list1()
+    cases += F.w_alias() + F.w_forctl() + F.w_loopvar() + F.w_stack0() + F.w_forlist_nested() + F.w_alias_lifetime() + F.w_list1() + F.w_namedslotwrite()
     for c in cases:
         c.setdefault("monitors", [])  # C01 judges traces only; monitors belong to C04/C06/C07
     return common.prepare(cases, default_variants=[{}, {"inline_functions": False}])
